@@ -6,7 +6,7 @@ import json
 import subprocess as sp
 
 from .. import driver, valgen
-from ..core import PY, Ctx, clean_env, coq_eval_shards, g_N, g_bool, g_list, g_nat, g_pair, g_str, pmap, proof_step, tmap
+from ..core import PY, REPO, Ctx, clean_env, coq_eval_shards, g_N, g_bool, g_list, g_nat, g_pair, g_str, pmap, proof_step, tmap
 
 
 # ----------------------------------------------------------------------------- A: sort_set_values vs Model/SortSet.v
@@ -85,7 +85,7 @@ def classify_set(el):
 # ----------------------------------------------------------------------------- B: hash seeds and construction orders
 CHILD = r'''
 import sys, json
-sys.path.insert(0, "/repo/src")
+sys.path.insert(0, __SRC__)
 from inline_snapshot._code_repr import code_repr
 from enum import Enum
 from collections import namedtuple
@@ -134,7 +134,7 @@ def gen_set_exprs(rng, n):
 def run_seed(item):
     seed, exprs = item
     env = clean_env({"PYTHONHASHSEED": str(seed)})
-    r = sp.run([PY, "-c", CHILD], input=json.dumps(exprs).encode(), capture_output=True, env=env, timeout=300)
+    r = sp.run([PY, "-c", CHILD.replace("__SRC__", repr(str(REPO / "src")))], input=json.dumps(exprs).encode(), capture_output=True, env=env, timeout=300)
     if r.returncode != 0:
         return {"error": r.stderr.decode()[-500:]}
     return {"out": json.loads(r.stdout.decode().strip().splitlines()[-1])}
